@@ -627,8 +627,27 @@ func runNative(overlay map[string][]byte, pkgs map[string]string, reports []*Har
 					nr.raceSeen[name] = true
 					continue
 				}
-				// a race that needs a particular interleaving: many free-running repetitions of the witnesses
+				// a race that needs a particular interleaving: many free-running repetitions of the witnesses,
+				// and of their variants in which one side starts a little later (harnesses with a "stagger"
+				// choice: which side takes a shared lock first decides whether the detector sees an access
+				// made after an unlock as unordered)
+				var all []witnessJob
 				for _, j := range jobs {
+					all = append(all, j)
+					if _, has := j.W.Choices["stagger"]; has {
+						for st := 1; st <= 2; st++ {
+							w := *j.W
+							w.Choices = map[string]int{}
+							for k, v := range j.W.Choices {
+								w.Choices[k] = v
+							}
+							w.Choices["stagger"] = st
+							w.Order, w.Preempts = nil, nil
+							all = append(all, witnessJob{ID: j.ID, W: &w})
+						}
+					}
+				}
+				for _, j := range all {
 					if runRace(bin, d, j, 2, 150) {
 						nr.raceSeen[name] = true
 						break
